@@ -67,6 +67,12 @@ def dirrt(lens, tiers, timeout=400):
         reach=["roundtrip"], functions=["sqfs_dir_writer_begin/add_entry/end/create_inode (lib/sqfs/src/dir_writer.c)", "sqfs_readdir_state_init, sqfs_meta_reader_readdir, sqfs_meta_reader_read_dir_header, sqfs_meta_reader_read_dir_ent (lib/sqfs/src/readdir.c)"],
         bound="%d entries with name lengths %s (name bytes symbolic), symbolic inode numbers, inode references, types; listing in one metadata block" % (ne, list(lens)))
 OBLIGATIONS += [dirrt((1,), ["quick", "thorough"]), dirrt((2, 1), ["quick", "thorough"]), dirrt((1, 2, 1), ["thorough"], 2400)]
+def xid(nb, meta, tiers):
+    return dict(name="xattr_id_table_locations_nb%d_m%d" % (nb, meta), harness="harness/C03_xattrid.c", sources=["lib/util/src/alloc.c"], included_sources=["lib/sqfs/src/xattr/xattr_writer_flush.c"],
+        incdirs=["lib/sqfs/src/xattr", "."], pre_include=["stubs/vp_pre_meta.h"], defines=dict(NB=nb, VP_META=meta), unwind=nb + 3, tiers=tiers, timeout=300,
+        reach=["written", "io_error"], functions=["write_id_table, alloc_location_table (lib/sqfs/src/xattr/xattr_writer_flush.c)"],
+        bound="%d xattr sets, metadata block size scaled to %d bytes (%d id entries per block), symbolic block address steps, append may fail" % (nb, meta, meta // 16))
+OBLIGATIONS += [xid(1, 32, ["quick", "thorough"]), xid(2, 32, ["quick", "thorough"]), xid(3, 32, ["quick", "thorough"]), xid(4, 32, ["thorough"]), xid(3, 48, ["thorough"])]
 OBLIGATIONS.append(dict(name="packfile_keywords", harness="harness/C01_packfile.c",
     sources=["lib/util/src/parse_int.c", "lib/util/src/canonicalize_name.c", "lib/util/src/split_line.c", "lib/util/src/alloc.c"], stubs=["stubs/vp_ctype.c", "stubs/vp_sysmacros.c"],
     included_sources=["bin/gensquashfs/src/fstree_from_file.c"], incdirs=["bin/gensquashfs/src"], unwind=12, tiers=["quick", "thorough"], timeout=300, reach=["done"],
